@@ -1,6 +1,8 @@
 package modifier
 
 import (
+	"sort"
+
 	"github.com/simimpact/srsim/pkg/engine/info"
 	"github.com/simimpact/srsim/pkg/engine/prop"
 	"github.com/simimpact/srsim/pkg/key"
@@ -54,8 +56,15 @@ func (mgr *Manager) EvalModifiers(target key.TargetID) *info.ModifierState {
 		Weakness:  totalWeakness,
 		Modifiers: mods,
 		Counts:    counts,
-		Flags:     toList(flagSet),
+		Flags:     sortedFlags(flagSet),
 	}
+}
+
+// the active flags in a fixed order (they are logged with the stats)
+func sortedFlags(set map[model.BehaviorFlag]struct{}) []model.BehaviorFlag {
+	out := toList(set)
+	sort.Slice(out, func(i, j int) bool { return out[i] < out[j] })
+	return out
 }
 
 func toList[T comparable](m map[T]struct{}) []T {
